@@ -202,6 +202,12 @@ class PartialModel:
             return obj
         return cls.to_partial(obj, ignore_invalid=ignore_invalid)
 
+    def _to_partial_val(self, val):
+        """Return value as partial model instance (values that are partial are kept)."""
+        if isinstance(val, PartialModel):
+            return val
+        return self.__partial_fac__.get_partial(type(val)).cast(val)
+
     def _update_field(
         self,
         v_old,
@@ -236,8 +242,8 @@ class PartialModel:
         old_is_model = isinstance(v_old, self.__partial_fac__.base_model)
         new_is_model = isinstance(v_new, self.__partial_fac__.base_model)
         if old_is_model and new_is_model:
-            v_old_p = self.__partial_fac__.get_partial(type(v_old)).cast(v_old)
-            v_new_p = self.__partial_fac__.get_partial(type(v_new)).cast(v_new)
+            v_old_p = self._to_partial_val(v_old)
+            v_new_p = self._to_partial_val(v_new)
             new_subclass_old = issubclass(type(v_new_p), type(v_old_p))
             old_subclass_new = issubclass(type(v_old_p), type(v_new_p))
             if new_subclass_old or old_subclass_new:
